@@ -3,3 +3,4 @@ import Props.C03
 import Props.C12
 import Props.C13
 import Props.C14
+import Props.C16
